@@ -12,6 +12,12 @@ CHECKS = {
  "C05": dict(level="exploration", design="5/C05", technique="deterministic simulation with fault injection: seeded turmoil::Sim runs (real per-host paused tokio runtimes) with timer programs on several tasks per host, late registration, crash/bounce injected at seeded steps with seeded downtime; oracle = reference clock checked after every step and on every host observation",
    text="Seeded exploration over ticks, timer patterns, registration instants and crash/bounce placements; every observation of every host is checked against the reference clock (step window, elapsed/sim_elapsed/since_epoch consistency, monotonicity, exact timer instants).",
    note="Trusted: the reference clock arithmetic in props/c05.rs. Timer durations are whole milliseconds (property text). Known finding C05-K1 (ticks that are not whole milliseconds) is exercised in 5% of the scenarios and matched by predicate (tick_us % 1000 != 0)."),
+ "C11": dict(level="exploration", design="5/C11", technique="deterministic simulation with fault injection: seeded mixes of clients/hosts with scripted fates (Ok / Err / never / panic in main or spawned task) at seeded virtual instants on real turmoil::Sim runs, Sim::run under catch_unwind compared with a reference that enumerates both placements of boundary fates; Sim::step driven by hand with host crashes, completion flag and post-finish/post-crash poll counters checked",
+   text="Seeded exploration over fate mixes, instants (on step boundaries and around the duration boundary), ticks, durations, registration phases and crash placements; the run/step result is compared with an executable reference of the property's iff.",
+   note="Trusted: the reference `predict` in props/c11.rs. Built with --cfg tokio_unstable as the repository's cargo config does. Boundary fates may land in either adjacent step; two terminal events in one step may surface in either order."),
+ "C18": dict(level="fault_enumeration", design="5/C18", technique="deterministic simulation with fault injection: seeded io_uring programs (push/submit/advance/drain/cancel/close/ring drop over 1-2 rings and 1-3 files, latency and page-cache knobs) against the real turmoil-io-uring + turmoil-fs with a harness-owned clock, a host crash injected after every program prefix; oracle = reference file model with effects applied in observed CQE order, latency windows from submit instant, exactly-once accounting of completions",
+   text="Per seeded program the crash point is enumerated over every prefix; programs, knobs and drain patterns are sampled by seed. Every CQE is checked against the reference (result, data, timing window, uniqueness) and the final file contents through the synchronous API must equal the model.",
+   note="Trusted: fskit reference file model + the ring accounting in props/c18.rs. The harness is the embedder (enters Fs and IoUringHostState with an explicit now). user_data unique per scenario; -EBADF for files closed before reaping is accepted (documented divergence)."),
 }
 def main():
     hooks = subprocess.run(["git","-C","/repo","log","--format=%h","--grep=^chore(verif)"],capture_output=True,text=True).stdout.split()
